@@ -391,6 +391,50 @@ def spec_nexthop(x, nh_in, nh_out, fam, is_local, what):
     return None
 
 
+def _strip_rust(src):
+    """comments and white space removed: the token stream that matters"""
+    out, i, n = [], 0, len(src)
+    while i < n:
+        if src.startswith('//', i):
+            j = src.find('\n', i)
+            i = n if j < 0 else j
+        elif src.startswith('/*', i):
+            j = src.find('*/', i + 2)
+            i = n if j < 0 else j + 2
+        elif src[i].isspace():
+            i += 1
+        else:
+            out.append(src[i])
+            i += 1
+    return ''.join(out)
+
+
+def source_fingerprint(repo):
+    """hash of the anchored code the model mirrors (DESIGN 5.4): a change does not raise
+    an alarm, it makes the quick run as deep as the thorough one for this property"""
+    import hashlib
+    h = hashlib.sha256()
+    try:
+        ex = open(os.path.join(repo, 'daemon/src/event/export.rs')).read()
+        ex = ex.split('// Verification harness')[0]
+        h.update(_strip_rust(ex).encode())
+        bg = open(os.path.join(repo, 'packet/src/bgp.rs')).read()
+        a, b = bg.find('pub fn as_path_count'), bg.find('pub fn as_path_origin')
+        h.update(_strip_rust(bg[a:b]).encode())
+        a = bg.find('pub fn is_opaque')
+        b = bg.find('pub fn canonical_flags')
+        h.update(_strip_rust(bg[a:b]).encode())
+        ev = open(os.path.join(repo, 'daemon/src/event/mod.rs')).read()
+        a = ev.find('async fn rx_update')
+        b = ev.find('if let Some(s) = reach {', a)
+        h.update(_strip_rust(ev[a:b]).encode())
+        a = ev.find('&& is_as_loop(')
+        h.update(_strip_rust(ev[a - 200:a + 400]).encode())
+    except OSError:
+        return 'unreadable'
+    return h.hexdigest()
+
+
 class Prop:
     pid = 'C09'
     props_file = 'Props/C09.v'
@@ -592,9 +636,22 @@ class Prop:
                     for confed in (0, CONFED_ID):
                         yield s, d, cid, confed
 
+    def fingerprint_changed(self):
+        from vp.util import REPO
+        fp = os.path.join(os.path.dirname(os.path.abspath(__file__)), 'c09_fingerprint.json')
+        try:
+            want = json.load(open(fp))['sha256']
+        except (OSError, ValueError, KeyError):
+            return True
+        return source_fingerprint(REPO) != want
+
     def gen_cases(self, rng, tier):
         cases = []
         scale = 1 if tier == 'quick' else 8
+        if tier == 'quick' and self.fingerprint_changed():
+            # the anchored code differs from the text the model was written against: go deeper
+            scale = 4
+            self.rule += ' [source fingerprint changed: quick run at 4x size]'
         # --- AS_PATH edits
         for _ in range(250 * scale):
             mal = rng.random() < 0.25
